@@ -79,6 +79,76 @@ def load_numba_module(text):
     return ns, stub
 
 
+def cfunc_part(case, text, b, comp, options, res, count, viol):
+    """Thorough: compile the generated module with the REAL numba (numba.cfunc, nopython, NUMBA_BOUNDSCHECK=1) and compare each
+    compiled kernel with the C kernel on identical buffers (float32/float64 only: ctypes has no complex)."""
+    import ctypes
+    import os
+
+    os.environ["NUMBA_BOUNDSCHECK"] = "1"
+    import numba
+
+    from ffcx.codegeneration.utils import numba_ufcx_kernel_signature
+    from vf import harness as H
+    from vf import oracle as O
+    from vf.valuecheck import facet_kernel_matches_entity
+
+    scalar = options.get("scalar_type", "float64")
+    if "complex" in scalar or not b.forms:
+        return
+    dt, rdt, _, _ = H.SCALARS[scalar]
+    ns = {"__name__": "ffcx_numba_real"}
+    exec(compile(text, "<ffcx numba module>", "exec"), ns)
+    sig = numba_ufcx_kernel_signature(dt, rdt)
+
+    def ptr(a):
+        return a.ctypes.data_as(ctypes.POINTER(np.ctypeslib.as_ctypes_type(a.dtype)))
+
+    rng = np.random.default_rng(case["seed"])
+    ffi = comp.ffi
+    budget = case.get("cfunc_kernels", 3)
+    for fi, (uf, cf) in enumerate(zip(b.forms, comp.objs)):
+        nf = ns.get(f"form_nb_{fi}")
+        desc = H.read_form(ffi, cf)
+        orc = O.FormOracle(uf)
+        for (itype, sid, k, itg), nitg in zip(H.integral_entries(ffi, cf, desc), list(nf.form_integrals or [])):
+            if budget <= 0:
+                return
+            budget -= 1
+            try:
+                kern = numba.cfunc(sig, nopython=True)(nitg.tabulate_tensor)
+            except Exception as e:
+                viol("numba-cfunc-compilation-fails", f"{itype}/{sid}: numba cannot compile the generated kernel: {type(e).__name__}: {str(e)[:200]}")
+                continue
+            count("cfunc_compiled")
+            interior = itype == "interior_facet"
+            data = H.make_data(rng, orc.coord_element, orc.original_coefficients, orc.constants, interior, False, "affine")
+            w, _ = H.pack_w(orc.original_coefficients, desc["original_coefficient_positions"], data, interior, dt)
+            c = H.pack_c(orc.constants, data, dt)
+            x = np.ravel(H.pack_x(data, interior, rdt))
+            shape = orc.tensor_shape(itype) or (1,)
+            edim, nent = orc.entity_info(itype)
+            ents = (0, min(1, nent - 1))
+            if itype in ("exterior_facet", "interior_facet") and not facet_kernel_matches_entity(orc.cellname, itype, int(itg.domain), ents[0]):
+                continue
+            if interior and O.facet_celltype(orc.cellname, ents[0]) != O.facet_celltype(orc.cellname, ents[1]):
+                ents = (0, 0)
+            ent = np.array(ents if interior else ents[:1], dtype=np.intc)
+            perm = np.array([1, 0] if (interior and O.tdim_of(orc.cellname) > 1) else [0, 0], dtype=np.uint8)
+            A_c = np.zeros(shape, dtype=dt)
+            H.call_kernel(ffi, itg, scalar, A_c, w, c, x.reshape(-1, 3), None if itype == "cell" else ent, perm[: 2 if interior else 1] if itype != "cell" else None)
+            A_n = np.zeros(int(np.prod(shape)), dtype=dt)
+            wz = w if w.size else np.zeros(1, dtype=dt)
+            cz = c if c.size else np.zeros(1, dtype=dt)
+            kern.ctypes(ptr(A_n), ptr(wz), ptr(cz), ptr(x), ptr(ent), ptr(perm), None)
+            err = float(np.max(np.abs(A_n.reshape(shape).astype(float) - A_c.astype(float)))) / max(float(np.max(np.abs(A_c))), 1e-300)
+            if err > 5e4 * H.EPS[scalar]:
+                viol("numba-compiled-kernel-differs-from-C", f"{itype}/{sid}: numba.cfunc result differs from the C kernel by {err:.3e}")
+            else:
+                count("cfunc_kernels_equal")
+                res["nontrivial"].append(case_hash([case["recipe"], options, fi, itype, sid, "cfunc"]))
+
+
 def run_case(case):
     import ffcx.compiler
     import ffcx.options
@@ -280,6 +350,12 @@ def run_case(case):
             else:
                 count("kernels_equal")
                 res["nontrivial"].append(case_hash([recipe, options, ei]))
+    if case.get("cfunc") and not res["violations"]:
+        try:
+            cfunc_part(case, text, b, comp, options, res, count, viol)
+        except Exception as e:
+            count("cfunc_harness_errors")
+            res.setdefault("cfunc_error", f"{type(e).__name__}: {str(e)[:120]}")
     res["cover"]["builder"] = [recipe["b"]]
     res["cover"]["cell"] = [str(recipe.get("cell"))]
     res["sample"] = sample
@@ -315,7 +391,8 @@ def cases_for(tier, s):
         r = c["recipe"]
         if r["b"] in ("hyperelastic", "stokes") and r.get("cell") in ("tetrahedron", "hexahedron"):
             continue
-        R.append({"recipe": r, "options": c.get("options", {}), "seed": [s, 18, i]})
+        R.append({"recipe": r, "options": c.get("options", {}), "seed": [s, 18, i], "cfunc": (tier == "thorough" and i % 2 == 0) or (tier == "quick" and i % 25 == 3),
+                  "cfunc_kernels": 2 if tier == "quick" else 4})
     return R
 
 
